@@ -663,6 +663,22 @@ static void run_history(vfh::Reporter &R, long seed, long shard, long h, const s
       }
       R.counter("readonly_write_attempts", attempts);
       R.counter("readonly_write_attempts_refused", refused);
+      if (r.coin(0.6)) {
+        // the same file is held open by a second, writable handle of this process while it is opened with READ level:
+        // the READ-level handle must still refuse writers (the level is a property of the handle, not of what the HDF5
+        // library shares underneath). Only the API refusal is judged here; nothing is written through either handle.
+        CheckpointFile fm(file, CheckpointAccessLevel::MODIFY);
+        bool opened = true;
+        try {
+          CheckpointFile f(file, CheckpointAccessLevel::READ);
+          R.eval("readonly_second_handle");
+          if (!throws([&] { f.getWriter(); }, what)) R.violation("readonly/second-handle/getWriter-does-not-refuse", "getWriter() on a READ-level handle did not throw while a MODIFY-level handle of the same file is open in the process", witness(nullptr, "", ""));
+          int g2 = (int)r.range(0, (long)GROUPS.size() - 1);
+          if (!throws([&] { f.getWriter(gpath(GROUPS[g2])); }, what)) R.violation("readonly/second-handle/getWriter-does-not-refuse", "getWriter(path) on a READ-level handle did not throw while a MODIFY-level handle of the same file is open in the process", witness(nullptr, "", "").s("path", gpath(GROUPS[g2])));
+          if (!throws([&] { f.getWriter("/ro_new_group"); }, what)) R.violation("readonly/second-handle/getWriter-does-not-refuse", "getWriter(new path) on a READ-level handle did not throw while a MODIFY-level handle of the same file is open in the process", witness(nullptr, "", "").s("path", "/ro_new_group"));
+        } catch (const std::exception &) { opened = false; } catch (const H5::Exception &) { opened = false; }
+        R.counter(opened ? "readonly_second_handle_sessions" : "readonly_second_handle_open_refused_not_judged");
+      }
       std::string after = slurp(file);
       if (after != before) R.violation("readonly/file-modified", "a file opened with READ level is not byte-identical afterwards", witness(nullptr, "", "").i("bytes_before", (long)before.size()).i("bytes_after", (long)after.size()));
       // READ on a missing file must be an error, and must not create it
